@@ -78,6 +78,15 @@ MULTI: Dict[str, Dict[str, str]] = {
     'reexport-self-package': {'pk/__init__.py': '', 'pk/sub/__init__.py': 'from pk import sub\n__all__ = ["sub"]\n', 'pk/sub/m.py': 'def f(): pass\n'},
     'reexport-root-package': {'pk/__init__.py': '', 'pk/a.py': 'import pk\nfrom . import a\n__all__ = ["pk", "a"]\n'},
     'reexport-parent-package': {'pk/__init__.py': '', 'pk/sub/__init__.py': '', 'pk/sub/m.py': 'from pk import sub\nfrom pk.sub import m\n__all__ = ["sub", "m"]\n'},
+    # a name of the package __init__ that is also the name of one of the package's own sub-modules / sub-packages, for every kind of binding
+    'init-shadows-submodule': {'pk/__init__.py': 'settings = load()\n"doc"\ndef tools(): "f"\nclass models:\n    "c"\nfrom .impl import views\nimport os as paths\nconsts: int = 1\nfor sub in (): pass\nsettings += 1\n',
+                               'pk/settings.py': 'x = 1\n', 'pk/tools.py': 'def t(): pass\n', 'pk/models.py': 'class M: pass\n', 'pk/views.py': 'def v(): pass\n', 'pk/impl.py': 'def views(): pass\n',
+                               'pk/paths.py': '', 'pk/consts.py': '', 'pk/sub/__init__.py': '', 'pk/sub/m.py': '',
+                               # a sub-module whose name is taken by a definition of the package is superseded like any duplicate: no page is demanded for it
+                               '__no_page__': 'settings tools models views paths consts'},
+    'init-shadows-submodule-reexport': {'pk/__init__.py': 'from .impl import thing, other as views\n__all__ = ["thing", "views", "settings"]\nsettings = 1\n', 'pk/impl.py': 'def thing(): "t"\nclass other:\n    "o"\n',
+                                        'pk/thing.py': 'class T:\n    def m(self): "L{T}"\n', 'pk/views.py': 'def v(): pass\n', 'pk/settings.py': 'y = 2\n', '__no_page__': 'thing views settings'},
+    'class-attr-shadows': {'pk/__init__.py': '', 'pk/a.py': 'class K:\n    class N: pass\n    N = 1\n    def f(self): pass\n    f = 2\n    g = 3\n    def g(self): pass\n    import os as h\n    h: int = 4\n'},
     'unparsable-imported-first': {'pk/__init__.py': '', 'pk/alpha.py': 'from .zbroken import helper\nfrom .zbroken import *\nimport pk.zbroken\nclass A(pk.zbroken.B): pass\n', 'pk/zbroken.py': 'def (:\n'},
 }
 
@@ -255,6 +264,7 @@ def judge_roots(name: str, fmt: str, res: Dict[str, Any]) -> None:
 
 def judge_multi(name: str, fmt: str, order_rev: bool, res: Dict[str, Any]) -> None:
     files = dict(MULTI[name])
+    no_page = set(files.pop('__no_page__', '').split())
     res['evals'] += 1
     res['nontrivial'].add(core.h('multi', name, fmt))
     case = {'kind': 'multi', 'item': name, 'fmt': fmt}
@@ -267,6 +277,7 @@ def judge_multi(name: str, fmt: str, order_rev: bool, res: Dict[str, Any]) -> No
             res['violations'].append(core.violation(f'aborts/status-{r.status}/multi:{name}', f'[project {name}] exit status {r.status}', case))
             return
         mods = [k[len('pk/'):-3].replace('/', '.') for k in files if k.endswith('.py') and not k.endswith('__init__.py') and compilable(files[k])]
+        mods = [m for m in mods if m not in no_page]
         for c, d in check_outputs(r, mods):
             res['violations'].append(core.violation(f'{c}/multi:{name}', f'[project {name}, {fmt}] {c} {d}', case))
 
